@@ -355,4 +355,16 @@ def searchIds (cls : LeafCls) (guard : Bool) (scoring : Bool) (c : Corpus) (q : 
 def searchIdsTop (cls : LeafCls) (guard : Bool) (scoring : Bool) (c : Corpus) (q : Query) : List Nat :=
   c.flatMap (fun s => collectIdsTop cls guard scoring s q)
 
+/-! ### executable well-formedness of a corpus (hypothesis `DocsWf` of the soundness theorems) -/
+
+/-- executable form of `DocsWf` (the driver evaluates it on every corpus it receives) -/
+def sortedB : List Nat → Bool
+  | [] => true
+  | [_] => true
+  | a :: b :: r => decide (a ≤ b) && sortedB (b :: r)
+
+
+def docsWfB (docs : List ADoc) : Bool := docs.all (fun d => d.postings.all (fun p => sortedB p.positions))
+
+
 end TantivyModel.BoolCompile
